@@ -15,10 +15,10 @@ import (
 	"time"
 
 	"github.com/alicebob/miniredis/v2"
-	tlog "github.com/tetratelabs/log"
-	"github.com/tetratelabs/telemetry"
 	corev3 "github.com/envoyproxy/go-control-plane/envoy/config/core/v3"
 	envoy "github.com/envoyproxy/go-control-plane/envoy/service/auth/v3"
+	tlog "github.com/tetratelabs/log"
+	"github.com/tetratelabs/telemetry"
 	"google.golang.org/protobuf/encoding/protojson"
 	"google.golang.org/protobuf/proto"
 
@@ -88,9 +88,9 @@ type checkRun struct {
 	defAns  *AnsSpec
 	dirs    map[string]*Directive
 	expect  string
-	r       int // replica that serves the check
+	r       int                // replica that serves the check
 	cancel  context.CancelFunc // cancels the context the request runs on
-	quiet   bool // only the request and the answer are logged (hammered checks: their store events are not ordered by the trace)
+	quiet   bool               // only the request and the answer are logged (hammered checks: their store events are not ordered by the trace)
 }
 
 type browser struct {
@@ -101,18 +101,18 @@ type browser struct {
 }
 
 type env struct {
-	cfgFile *internal.LocalConfigFile
-	cfg     *configv1.Config
-	filter  *server.ExtAuthZFilter
+	cfgFile  *internal.LocalConfigFile
+	cfg      *configv1.Config
+	filter   *server.ExtAuthZFilter
 	replicas []*server.ExtAuthZFilter // replicas[0] == filter
-	factory *spyFactory
-	mr      map[string]*miniredis.Miniredis
-	cancel  context.CancelFunc
-	spec    CfgSpec
-	fspec   map[string]*FilterSpec
-	kube    client.Client
-	secrets *k8s.SecretController
-	curSec  map[string]string // Kubernetes Secret name -> current value
+	factory  *spyFactory
+	mr       map[string]*miniredis.Miniredis
+	cancel   context.CancelFunc
+	spec     CfgSpec
+	fspec    map[string]*FilterSpec
+	kube     client.Client
+	secrets  *k8s.SecretController
+	curSec   map[string]string // Kubernetes Secret name -> current value
 }
 
 type driver struct {
@@ -122,7 +122,7 @@ type driver struct {
 	arrived chan *gate
 
 	jitter  atomic.Bool
-	fracMs  int64 // milliseconds past the whole second d.now (tickms)
+	fracMs  int64                // milliseconds past the whole second d.now (tickms)
 	bySid   map[string]*checkRun // parallel mode: session id presented -> the check in flight that presented it
 	mu      sync.Mutex
 	cur     *checkRun
@@ -139,13 +139,13 @@ type driver struct {
 	scN     int
 
 	oldSecrets []string
-	parallel  bool                 // a "parallel" step is running: no gates, attribution by context / code / refresh token
-	big       sync.Mutex           // serialises the harness' own bookkeeping in parallel mode
-	codeOwner map[string]*checkRun // authorization code -> the callback check that carried it
-	rtReader  map[string]*checkRun // refresh token -> the check that last read it from the store
-	orphan    *checkRun
-	realTime  bool // binary mode: the virtual clock follows the wall clock
-	checkFn   func(context.Context, *envoy.CheckRequest) (*envoy.CheckResponse, error) // binary mode: Check over gRPC
+	parallel   bool                 // a "parallel" step is running: no gates, attribution by context / code / refresh token
+	big        sync.Mutex           // serialises the harness' own bookkeeping in parallel mode
+	codeOwner  map[string]*checkRun // authorization code -> the callback check that carried it
+	rtReader   map[string]*checkRun // refresh token -> the check that last read it from the store
+	orphan     *checkRun
+	realTime   bool                                                                     // binary mode: the virtual clock follows the wall clock
+	checkFn    func(context.Context, *envoy.CheckRequest) (*envoy.CheckResponse, error) // binary mode: Check over gRPC
 }
 
 func newDriver(out, tmp string) (*driver, error) {
@@ -189,6 +189,7 @@ func (d *driver) unix(rel int64) int64 {
 	}
 	return baseTime.Unix() + rel
 }
+
 // relSec is the floor of t in whole seconds on the virtual time axis.
 func (d *driver) relSec(t time.Time) int64 {
 	dd := t.Sub(baseTime)
@@ -1169,7 +1170,9 @@ func (d *driver) describe(c *checkRun, f *FilterSpec, ev map[string]any) {
 				allow[v] = true
 			}
 		}
-		sort.Slice(up, func(i, j int) bool { return up[i].(map[string]any)["k"].(string) < up[j].(map[string]any)["k"].(string) })
+		sort.Slice(up, func(i, j int) bool {
+			return up[i].(map[string]any)["k"].(string) < up[j].(map[string]any)["k"].(string)
+		})
 		ev["upstream"] = up
 		// what an OK answer ADDS to the upstream request besides headers: query parameters. (Headers to remove add nothing;
 		// response headers go to the browser and are scanned for secrets like every answer; dynamic metadata and the status
@@ -1361,7 +1364,6 @@ func (d *driver) describeLocation(f *FilterSpec, v string) map[string]any {
 	return out
 }
 
-
 // ---- request envelopes -----------------------------------------------------------------------------------------------
 
 // envelopeAuthority gives the scheme and Host a request of the envelope carries. A callback keeps the authority of the
@@ -1422,7 +1424,6 @@ func applyEnvelope(env string, req *envoy.CheckRequest) {
 	}
 }
 
-
 // quietLogger is the logger cmd/main.go uses (tetratelabs/log), writing to /dev/null instead of the standard output.
 var (
 	devnullOnce sync.Once
@@ -1440,7 +1441,6 @@ func quietLogger() telemetry.Logger {
 	os.Stdout = saved
 	return l
 }
-
 
 // removeOwnQuery takes the components of the endpoint's own query out of a raw query (each once) and says whether all were found.
 func removeOwnQuery(raw, own string) (string, bool) {
